@@ -312,6 +312,57 @@ pub fn late_bool_progs() -> Vec<Prog> {
     out
 }
 
+/// directed: a CONSTANT as the scope parent of a local that is referenced behind a cascading instruction, with a
+/// same-named literal local under the label before it. Which declaration `.v` means is fixed by the text; its value is
+/// an address that settles late.
+pub fn scope_parent_progs() -> Vec<Prog> {
+    let rules = vec![RuleSrc::new("jb {a}", "{ assert(a < 6), 0xa @ a`4 }"), RuleSrc::new("jb {a}", "0xb0 @ a`8"), RuleSrc::new("ld {x: u8}", "0x7e @ x"), RuleSrc::new("nop", "0x00")];
+    let mut out = vec![];
+    for decoy in [false, true] {
+        for parent in ["K = 1", "K:", "g2:"] {
+            for local in [".v:", ".v = 7", ".v = F"] {
+                for uses in [vec!["ld .v"], vec!["#d8 .v"], vec!["ld .v", "#d8 .v"], vec!["#d8 .v", "ld .v"]] {
+                    for pad in 0..=2 {
+                        for pad2 in [0usize, 3] {
+                            let mut items = vec![Item::Label("g".into())];
+                            if decoy {
+                                items.push(Item::Const(".v".into(), "1".into()));
+                            }
+                            items.push(Item::Instr("jb F".into()));
+                            for _ in 0..pad {
+                                items.push(Item::Instr("nop".into()));
+                            }
+                            match parent {
+                                "K = 1" => items.push(Item::Const("K".into(), "1".into())),
+                                p => items.push(Item::Label(p.trim_end_matches(':').into())),
+                            }
+                            match local {
+                                ".v:" => items.push(Item::Label(".v".into())),
+                                ".v = 7" => items.push(Item::Const(".v".into(), "7".into())),
+                                _ => items.push(Item::Const(".v".into(), "F".into())),
+                            }
+                            for u in &uses {
+                                if let Some(e) = u.strip_prefix("#d8 ") {
+                                    items.push(Item::Data(Some(8), vec![e.to_string()]));
+                                } else {
+                                    items.push(Item::Instr(u.to_string()));
+                                }
+                            }
+                            for _ in 0..pad2 {
+                                items.push(Item::Instr("nop".into()));
+                            }
+                            items.push(Item::Label("F".into()));
+                            items.push(Item::Instr("nop".into()));
+                            out.push(Prog { ruledefs: vec![RuleDefSrc { name: None, sub: false, rules: rules.clone() }], items });
+                        }
+                    }
+                }
+            }
+        }
+    }
+    out
+}
+
 /// sizes of the instruction items as claimed by the real result (from the spans, in program order)
 pub fn claimed_sizes(prog: &Prog, obs: &Obs) -> Option<Vec<usize>> {
     let mut k = 0;
@@ -510,6 +561,10 @@ pub fn run(ctx: &Ctx) -> Report {
     let lb = late_bool_progs();
     rep.absorb(par_cases(&lb, |p, l| judge(p, "late-boolean-directed", &all_budgets, l)));
     levels.push(json!({"family": "late-settling boolean constant (directed): 2 orders x 7 thresholds x 3 x 3 pads x budgets 1..30 x 4 switches", "programs": lb.len()}));
+    let sp = scope_parent_progs();
+    let sp_budgets = [2usize, 3, 4, 10, 30];
+    rep.absorb(par_cases(&sp, |p, l| judge(p, "constant-or-label-as-scope-parent-directed", &sp_budgets, l)));
+    levels.push(json!({"family": "a constant / label as scope parent of a late-settling local, with a same-named decoy (directed)", "programs": sp.len()}));
     rep.extra("levels", json!(levels));
     rep.extra("budgets", json!(budgets));
     rep.assumptions = vec!["the certificate uses the reference matcher/evaluator (refasm) with the sizes and symbol values the assembler itself reports; it never predicts which fixed point is found".into(), "hook H2 (per-pass state digests) is coverage instrumentation only: the certificate reads the public final result".into()];
